@@ -22,7 +22,9 @@ from harness.armi_env import armi_ready
 
 MODDIR = os.path.join(common.SPEC, "xs")
 
-NUC = ["U235", "U238", "FE56", "NA23"]  # nuclides 1..4 of the specifications (allNuclidesInProblem)
+# nuclides 1..4 of the specifications (allNuclidesInProblem); the fourth is not among the nuclides the 1-D cylinder/slab options
+# require to be present in all members or none (PU239 U238 U235 U234 FE56 NA23 O16), so members may differ in holding it
+NUC = ["U235", "U238", "FE56", "MN55"]
 # component areas and held nuclides (0-based) by number of components: McCompArea/McHolds and McCompArea3/McHolds3
 GEOMETRY = {2: ([2.0, 3.0], [[0, 1], [1, 2]]), 3: ([1.0, 2.0, 4.0], [[0, 1], [1, 2], [2, 3]])}
 COMP_FLAGS = {2: ["fuel", "clad"], 3: ["fuel", "clad", "duct"]}
@@ -172,6 +174,10 @@ FILTER_TYPES = {"all": None, "fuel": ["fuel"], "fuelcontrol": ["fuel", "control"
 ALL_TYPES = ["fuel", "control", "reflector"]
 
 
+def flux_of(rec):
+    return float(rec["w"]) / float(rec.get("wd", 1))
+
+
 def make_block(name, rec, shape="circle"):
     """HexBlock with two solid Circle components of areas 2 and 3 (Custom material, no expansion) holding the record's values."""
     armi_ready()
@@ -190,14 +196,15 @@ def make_block(name, rec, shape="circle"):
         else:
             c = components.Circle("%s-c%d" % (name, ci), "Custom", Tinput=t, Thot=t, od=math.sqrt(4.0 * areas[ci] / math.pi), id=0.0, mult=1)
         c.setType("bond" if ci == 1 and rec.get("alt") else COMP_FLAGS[nc][ci])
-        c.p.numberDensities = {NUC[k]: float(rec["n"][ci][k]) for k in holds[ci]}
+        # keys: the nuclides the component always holds, plus any other nuclide of positive density
+        c.p.numberDensities = {NUC[k]: float(rec["n"][ci][k]) for k in range(len(NUC)) if k in holds[ci] or rec["n"][ci][k] > 0}
         b.add(c)
     if rec.get("lfp"):
         b.setLumpedFissionProducts(make_lfps())
     b.setType(KIND_TYPE[rec["kind"]])
     b.p.percentBu = float(rec["bu"])
     b.p.massHmBOL = float(rec["hm"])
-    b.p.flux = float(rec["w"])
+    b.p.flux = flux_of(rec)
     warm(b)
     return b
 
@@ -323,7 +330,7 @@ class Pool:
             if placed:  # every member of a case with a symmetry-cut block sits in a core (the names come from the assemblies)
                 self.reactors.append(place_in_third_core(b, rec.get("sym", 1), rank))
                 # Core.add rescales mass-like parameters of symmetry-cut assemblies: the record's values are those in place
-                b.p.percentBu, b.p.massHmBOL, b.p.flux = float(rec["bu"]), float(rec["hm"]), float(rec["w"])
+                b.p.percentBu, b.p.massHmBOL, b.p.flux = float(rec["bu"]), float(rec["hm"]), flux_of(rec)
                 warm(b)
             hit = self.blocks[key] = [b, fingerprint(b)]
         return key, hit[0], hit[1]
@@ -421,7 +428,7 @@ def run_case(case, pool):
     return out
 
 
-REP_QUICK_SAMPLE = {"dens": 900, "temp": 600, "burn": 900, "kind": 600, "tri": 1100, "cyl": 900, "cyl3": 400, "lfp": 250, "ord": 250, "perm": 468, "sym": 900}
+REP_QUICK_SAMPLE = {"dens": 900, "temp": 600, "burn": 900, "kind": 600, "tri": 1100, "cyl": 900, "cyl3": 400, "lfp": 250, "ord": 250, "perm": 468, "sym": 900, "sim3": 600, "nucs": 800, "flux": 700}
 
 
 def check_rep(rep, tier, seed):
@@ -998,13 +1005,16 @@ def run(rep, tier, seed):
         "such as component p.volume are filled before the baseline fingerprint is taken)",
         "a core uses one-letter types (with environment groups) or two-letter types (single environment group), not both; two-letter groups are never re-labelled",
         "temperature-group bounds are never hit exactly (the block temperature is a float quotient); burnup bounds are hit exactly",
-        "blocks: HexBlock with two solid Custom-material Circle components (areas 2 and 3); atomic weights of U235/U238/FE56/NA23 set in-process to 2/3/5/7 "
+        "blocks: HexBlock with two solid Custom-material Circle components (areas 2 and 3); atomic weights of U235/U238/FE56/MN55 set in-process to 2/3/5/7 "
         "while representatives are created by component (mass-weighted component temperature); everything else is weight-free",
         "1-D cylinder option: copy of the candidate with the median block-average temperature, per-component averages with volume weights; "
         "1-D slab option: the same on blocks of Rectangle components stored in one order, no lattice component, no nuclide temperatures",
         "environment group: the temperature isotope comes from the settings found for the block's current key (its own, else the lowest lower "
         "letter of the type, else the default U238); no isotope -> temperature group 0",
         "lumped fission products: a member may carry a collection; the new block carries the one of its source (median: a duplicate)",
+        "flux values are fractions w/wd (0, 1/4, 1/2, 3/4, 1, 8): only a zero is replaced by 1; members may hold different nuclide sets "
+        "(a component holds its fixed nuclides plus any other of positive density); block-level averaging puts a nuclide the copied first candidate "
+        "does not hold into every component (composites.updateNumberDensities)",
         "component storage order: blocks may store their components in any order (two components: both orders; three components: all six)",
         "createRepresentativeBlocksUsingExistingBlocks re-assigns xsType of the listed blocks and adds settings keys by specification; the action "
         "includes the caller's filling of the returned collections with the listed blocks; updateNuclideTemperatures is only taken when no median "
@@ -1271,6 +1281,32 @@ def selftest():
             wb += w * b.p.percentBu
         return 0.0 if tot == 0.0 else wb / tot
 
+    def similarity_first_only(self):
+        """round 3 seed 1: only the first candidate is compared with the reference (last) one"""
+        cFlags = {}
+        for b in self.getCandidateBlocks():
+            cFlags[b] = [c.p.flags for c in sorted(b.getComponents())]
+        refFlags = cFlags[b]
+        for b, compFlags in cFlags.items():
+            for c, refC in zip(compFlags, refFlags):
+                if c != refC:
+                    return False
+            else:
+                return True
+
+    def avg_dens_first_block_nuclides(self):
+        """round 3 seed 4: the nuclide list of the first candidate instead of allNuclidesInProblem"""
+        blocks = self.getCandidateBlocks()
+        nuclides = blocks[0].getNuclides()
+        weights = np.array([self.getWeight(b) for b in blocks])
+        weights /= weights.sum()
+        return dict(zip(nuclides, weights.dot([b.getNuclideNumberDensities(nuclides) for b in blocks])))
+
+    def weight_clamped(self, block):
+        """round 3 seed 5: max(value, 1.0) instead of replacing a zero only"""
+        vol = block.getVolume() or 1.0
+        return (1.0 if not self.weightingParam else max(block.p[self.weightingParam], 1.0)) * vol
+
     def new_block_no_copy(self):
         return self.getCandidateBlocks()[0]
 
@@ -1358,6 +1394,9 @@ def selftest():
         ("round 2 seed 2: _calcWeightedBurnup divides by the height instead of the volume", lambda: P(BC, "_calcWeightedBurnup", burnup_divides_by_height)),
         ("round 2 seed 4: updateNuclideTemperatures skips collections that have temperatures", lambda: P(MGR, "updateNuclideTemperatures", update_temps_only_empty)),
         ("round 2 seed 5: new collections of the Use workflow lose the valid block types", lambda: P(MGR, "createRepresentativeBlocksUsingExistingBlocks", new_collections_lose_filter)),
+        ("round 3 seed 1: _checkBlockSimilarity compares only the first candidate", lambda: P(AVG, "_checkBlockSimilarity", similarity_first_only)),
+        ("round 3 seed 4: block-level averaging over the first candidate's nuclides only", lambda: P(AVG, "_getAverageNumberDensities", avg_dens_first_block_nuclides)),
+        ("round 3 seed 5: getWeight clamps the weighting parameter at 1.0", lambda: P(BC, "getWeight", weight_clamped)),
         ("_getNewBlock returns the first candidate itself (core block modified)", lambda: P(BC, "_getNewBlock", new_block_no_copy)),
         ("_checkValidWeightingFactors accepts mixed zero/non-zero flux", lambda: P(BC, "_checkValidWeightingFactors", no_weight_check)),
         ("_updateEnvironmentGroups: bu < upper instead of <=", lambda: P(MGR, "_updateEnvironmentGroups", env_strict_bound)),
